@@ -616,7 +616,8 @@ class Parser:
                 flags |= self.RE_FLAG_MAP[flag]
         try:
             return RegexLiteral(value=re.compile(pattern, flags))
-        except re.error as err:
+        except (re.error, OverflowError) as err:
+            # OverflowError for a repetition count that is too large
             raise JSONPathSyntaxError(
                 f"invalid regular expression, {err}", token=stream.current
             ) from err
